@@ -59,7 +59,7 @@ Definition u32at (b : bytes) (i : nat) : res N :=
 Definition u64at (b : bytes) (i : nat) : res N :=
   let* s := sub b i (i + 8) in Ok (be_val s).
 
-Definition nat_of (n : N) : nat := N.to_nat n.
+Notation nat_of := N.to_nat (only parsing).
 
 Global Arguments N.div : simpl never.
 Global Arguments N.modulo : simpl never.
@@ -68,6 +68,8 @@ Global Arguments N.add : simpl never.
 Global Arguments N.sub : simpl never.
 Global Arguments N.pow : simpl never.
 Global Arguments N.lxor : simpl never.
+Global Arguments firstn : simpl never.
+Global Arguments skipn : simpl never.
 Global Arguments Nat.div : simpl never.
 Global Arguments Nat.modulo : simpl never.
 Global Arguments Nat.leb : simpl never.
